@@ -12,6 +12,15 @@ operations have on this triple:
   remove      — RemoveWorkload of a recorded workload (rollback or removal)
   finish i    — DeleteProcessing(ident i) when the deployment returns
 `status = recorded + Σ markers` is what GetDeployStatus reports (`statusExact`).
+
+Atomicity: `add i` is ONE transition — there is no state of this system in which the workload is
+recorded and the marker is not yet decremented (or vice versa).  For the reference store that is
+`Eru.Props.C13.add_with_marker_atomic` / `add_with_marker_keeps_status`; for the real etcd backend
+(`BatchCreateAndDecr` = one transaction putting the workload keys and the decremented marker) the
+tie is the per-revision check of harness/store: the bounds are evaluated at EVERY etcd revision
+an AddWorkload-with-processing produces (`C13:above-planned:at-revision`), so an implementation
+that writes the workload and decrements the marker in two transactions is caught even though
+its end states are identical.
 -/
 namespace Eru.Store.Deploy
 open Eru.Store
